@@ -192,6 +192,37 @@ fn main() {
             };
             format!("{} | {}", reads.join(","), lst)
         }
+        // rebuild <src> <dst> <target 0..4> <comp hex|-> <shift hex|-> <skipenc> <verify>
+        "rebuild" => {
+            use wow_mpq::{RebuildOptions, rebuild_archive};
+            let o = RebuildOptions {
+                preserve_format: num(t[3]) == 0,
+                target_format: if num(t[3]) == 0 { None } else { Some(version(num(t[3]))) },
+                preserve_order: true,
+                skip_encrypted: t[6] == "1",
+                skip_signatures: true,
+                verify: t[7] == "1",
+                override_compression: if t[4] == "-" { None } else { Some(num(t[4]) as u8) },
+                override_block_size: if t[5] == "-" { None } else { Some(num(t[5]) as u16) },
+                list_only: false,
+            };
+            match rebuild_archive(t[1], t[2], o, None) {
+                Ok(s) => format!("OK {} {} {} {}", s.source_files, s.extracted_files, s.skipped_files, if s.verified { 1 } else { 0 }),
+                Err(e) => errclass(&e),
+            }
+        }
+        // compare <a> <b>  (content check)
+        "compare" => {
+            match wow_mpq::compare_archives(t[1], t[2], true, true, false, false, None) {
+                Ok(r) => {
+                    let f = r.files.as_ref();
+                    format!("OK identical={} content_diffs={} size_diffs={} source_only={} target_only={}", r.identical,
+                        f.map(|f| f.content_differences.len()).unwrap_or(0), f.map(|f| f.size_differences.len()).unwrap_or(0),
+                        f.map(|f| f.source_only.len()).unwrap_or(0), f.map(|f| f.target_only.len()).unwrap_or(0))
+                }
+                Err(e) => errclass(&e),
+            }
+        }
         "par" => par(&t[1..]),
         "multi" => multi(&t[1..]),
         "chain" => chain(&t[1..]),
